@@ -9,6 +9,7 @@ uniform stream with bounds twelve standard deviations wide and labels that as su
 import Pastel.RealInst
 import Pastel.Lemmas.RealColor
 import Pastel.Model.Cli
+import Pastel.Model.CliRun
 
 namespace Pastel.C16
 open Pastel
@@ -101,5 +102,33 @@ theorem gray_every_level_reachable : ∀ k : Fin 256,
     (let c := toRgba8 (randGray (α := Float) { rest := [grayWitness k.val] }).1
      (c.r.toNat, c.g.toNat, c.b.toNat)) = (k.val, k.val, k.val) := by
   decide +kernel
+
+/-! ### At the command line (CLI model) -/
+
+section clirun
+open Pastel.Cli
+
+/-- **`pastel random -n N` prints exactly `N` lines** (on the CLI model: whatever the strategy
+draws, the command prints one line per requested colour) whenever `N` is a readable count, and
+nothing but the error otherwise. -/
+theorem random_cli_count (n : String) (colors : List String) (stdin : List StdinLine) :
+    (∀ count, parseUsize n.toList = some count →
+      (run "random" [n] colors stdin).lines.length = count ∧ (run "random" [n] colors stdin).err = none) ∧
+    (parseUsize n.toList = none → run "random" [n] colors stdin = fail (.couldNotParseNumber n)) := by
+  have hrun : run "random" [n] colors stdin = runRandom [n] := by
+    unfold run
+    simp only [show ("random" = "mix") = False by decide, show ("random" = "gray") = False by decide,
+      show ("random" = "gradient") = False by decide, show ("random" = "sort-by") = False by decide,
+      show ("random" = "paint") = False by decide, if_false, if_true]
+  rw [hrun]
+  constructor
+  · intro count hp
+    unfold runRandom
+    simp [hp]
+  · intro hp
+    unfold runRandom
+    simp [hp]
+
+end clirun
 
 end Pastel.C16
